@@ -137,7 +137,19 @@ def entry_points(ctx, case, raw, t, impl):
     from fs.memoryfs import MemoryFS
     mem = MemoryFS()
     mem.writebytes('t.tmd', raw)
-    for name, call in (('from_file(fileobj)', lambda: TitleMetadataReader.from_file(io.BytesIO(raw))),
+    lead = bytes(range(1, 1 + (len(raw) % 37) + 3))
+
+    def positioned():
+        f = io.BytesIO(lead + raw + b'\x99' * 5)
+        f.seek(len(lead))
+        return TitleMetadataReader.load(f)
+
+    def second_of_two():
+        f = io.BytesIO(bytes(raw[:4]) + bytes(len(raw) - 4) + raw)      # something TMD-sized first, then the file itself
+        f.seek(len(raw))
+        return TitleMetadataReader.load(f)
+    for name, call in (('load(stream positioned at a non-zero offset)', positioned), ('load(second TMD in one stream)', second_of_two),
+                       ('from_file(fileobj)', lambda: TitleMetadataReader.from_file(io.BytesIO(raw))),
                        ('from_file(path, fs=)', lambda: TitleMetadataReader.from_file('t.tmd', fs=mem))):
         try:
             t2 = call()
@@ -174,6 +186,8 @@ def run_case(ctx, mr, case):
         ctx.diff('oracle', 'tmd-serialise-raises', case, 'bytes', pyenv.errname(ex), f'serialising a loaded TMD raised {pyenv.errname(ex)}')
         return
     reserialise_vs_model(ctx, mr, case, raw, True)
+    if rng.random() < 0.4:
+        entry_points(ctx, case, raw, t, impl)
     if rng.random() < 0.5:
         # inputs that load but are not well formed: the serialisation differs from the input, the model must say how
         odd = bytearray(raw)
